@@ -940,6 +940,9 @@ func (v *FV) applyContract(fr *Frame, st *State, con *Contract, callee *ssa.Func
 			}
 		}
 	}
+	if con.NoRefine {
+		v.trusted["interface contract "+shortKey(con.Key)+" is assumed at call sites (not tied to the implementations' contracts)"] = true
+	}
 	var coverBefore *Obligation
 	if v.quiet == 0 && len(con.Ensures) > 0 {
 		coverBefore = &Obligation{Name: v.curFnKey + "#cover.before." + mangle(short), Kind: "cover", Fn: v.curFnKey, Pos: pos, Reach: "true", Goal: fmt.Sprintf("(not %s)", st.reach), ScriptLen: len(v.script), Expect: "sat"}
